@@ -303,9 +303,11 @@ def main(prop, modname, tier, nproc=None):
     # ---- replay on the real package
     srv = ReplayServer()
     known = load_known(prop)
-    replay_dir = os.path.join(VERIF, "replays", prop)
+    replay_dir = os.environ.get("VERIF_REPLAY_DIR") or os.path.join(VERIF, "replays", prop)
     confirmed, known_hits, spurious = [], [], []
     MAX_CONFIRM = int(os.environ.get("VERIF_MAX_CONFIRM", "4"))
+    MAX_REPLAYS = int(os.environ.get("VERIF_MAX_REPLAYS", "40"))     # counterexample replays attempted per run (only matters on broken trees)
+    tried = 0
     not_replayed = 0
     dirty = False
     validated = 0
@@ -340,9 +342,10 @@ def main(prop, modname, tier, nproc=None):
                 if v.get("kind") is None:
                     spurious.append({"violation": v, "why": "no replay kind"})
                     continue
-                if len(confirmed) >= MAX_CONFIRM:
-                    not_replayed += 1     # enough confirmed violations for the verdict; the rest is not replayed
+                if len(confirmed) >= MAX_CONFIRM or tried >= MAX_REPLAYS:
+                    not_replayed += 1     # enough confirmed violations for the verdict (or the replay budget is used up); the rest is not replayed
                     continue
+                tried += 1
                 if dirty or getattr(mod, "FRESH_REPLAY", False):
                     srv.close()
                     srv = ReplayServer()      # confirm in a pristine interpreter
